@@ -71,6 +71,10 @@ def run(ck):
             meta.append(dict(desc, lane=lane))
         if i < 2:
             ck.sample({'m': m, 'nodes': len(c.nodes), 'values': values, 'sims': sims, 'stimulus_lane0': stim[:, 0].tolist()})
+    # directed: every gate kind alone, all operand tuples (finds the operands when a dispatch branch is wrong)
+    for mm in (4, 8):
+        for desc, what in sk.single_gate_sweep(ck, mm, rng, per_kind=None if ck.thorough else (150 if mm == 4 else 250)):
+            fails.append(('value', desc, what))
     ck.rule('random circuits x stimuli over {0,1,X,-} (m=4) / all eight values or the six known ones (m=8) x odd batch sizes x c_reuse x '
             'strip_forks; oracle = independent composition of the documented operators + brute-force completions + init/final projection')
     chunks = [coq_cases[i:i + 120] for i in range(0, len(coq_cases), 120)]
